@@ -337,6 +337,38 @@ def table_check(cfgs, lf, stats):
     return problems, info
 
 
+# ---------------------------------------------------------------- call sites (consumers of Fork / Clone / UpdateUsingForked)
+def site_oracle(text, stats):
+    """CS lines of the backoffsite driver.  What the unmodified consumers guarantee (C20_worker_pattern): the caller's
+    back-offer ends with its accounting at the fork plus the sleeps of exactly ONE worker (the one that finished last).
+    The driver makes every worker back off exactly k times with regionMiss through a fresh closure (2, 4, .. ms), so
+    whichever worker is merged the caller gains exactly those k sleeps — on success and on error endings."""
+    fails, n = [], 0
+    for l in text.splitlines():
+        if not l.startswith("CS\t"):
+            continue
+        r = json.loads(l.split("\t", 1)[1]); n += 1
+        stats["o_call_site"] += 1
+        b, a, k = r["before"], r["after"], r["k"]
+        gain = sum(min(500, 2 * 2 ** x) for x in range(k))
+        exp_sleep = dict(b["sleep"]); exp_sleep["regionMiss"] = exp_sleep.get("regionMiss", 0) + gain
+        exp_times = dict(b["times"]); exp_times["regionMiss"] = exp_times.get("regionMiss", 0) + k
+        want = dict(total=b["total"] + gain, errnum=b["errnum"] + k, sleep=exp_sleep, times=exp_times,
+                    types=(b["types"] or []) + ["regionMiss"] * k, ttimes=b["ttimes"] + k)
+        got = dict(a); got["types"] = got["types"] or []
+        diff = [x for x in want if want[x] != got[x]]
+        res_ok = (r["err"] == "") == (r["ending"] == "ok") and (r["site"] != "batchget" or r["ending"] != "ok" or r["values"] == 2 * r["workers"])
+        if diff:
+            lost = a["total"] == b["total"] and a["ttimes"] == b["ttimes"]
+            fails.append(("C20_call_site", r, "%s (%d workers, each backs off %d x regionMiss = %d ms, ending %s, slow region %s): the caller's back-offer "
+                          "should gain exactly one worker's sleeps; differs in %s (total %d -> %d, expected %d)" %
+                          (r["site"], r["workers"], k, gain, r["ending"], r["slow"], diff, b["total"], a["total"], want["total"]),
+                          "caller_loses_worker_sleep" if lost else "caller_accounting_differs"))
+        elif not res_ok:
+            fails.append(("C20_call_site", r, "%s returned err=%r values=%d for ending %s" % (r["site"], r["err"], r["values"], r["ending"]), "call_site_result"))
+    return fails, n
+
+
 # ---------------------------------------------------------------- pipeline
 def run_pipeline(exe, modelrun, env, replay_lines=None):
     if replay_lines:
@@ -376,10 +408,14 @@ def main(tier, replay):
     env = vlib.goenv(); env["VERIF_SEED"] = str(vlib.SEED); env["VERIF_TIER"] = tier
     okm, modelrun = vlib.build_model("Backoff")
     okg, exe = vlib.go_build("backoff", roots=ROOTS)
-    stats = {k: 0 for k in ("o_budget", "o_step_bounds", "o_longest", "o_cancel", "o_fork_clone_start", "o_merge_exact", "o_api", "o_getters", "o_expo", "o_table")}
+    stats = {k: 0 for k in ("o_budget", "o_step_bounds", "o_longest", "o_cancel", "o_fork_clone_start", "o_merge_exact", "o_api", "o_getters", "o_expo", "o_table", "o_call_site")}
     mstats, classes, samples, mism, pfails, ofails = {}, {}, [], [], [], []
     distinct = 0
-    if okg and okm:
+    site_failures = 0
+    site_replay = bool(replay and json.load(open(replay)).get("site_case"))
+    if site_replay:
+        pass          # a call-site replay re-runs the call-site driver only (same seed as recorded)
+    elif okg and okm:
         case = json.load(open(replay)).get("case") if replay else None
         res, err = run_pipeline(exe, modelrun, env, case)
         if err:
@@ -449,6 +485,25 @@ def main(tier, replay):
     else:
         why = (exe if not okg else modelrun)
         v.violation({"kind": "harness-build", "correspondence": "Backoff driver/model build against the current tree", "error": why}, has_input=False)
+    if not replay or site_replay:
+        oks, sexe = vlib.go_build("backoffsite", roots=ROOTS)
+        if not oks:
+            v.violation({"kind": "harness-build", "correspondence": "call-site driver (txnlock.checkAllSecondaries, txnsnapshot.batchGetKeysByRegions) against the current tree",
+                         "error": sexe}, has_input=False)
+        else:
+            rcs, souts = vlib.sh([sexe], env=env, timeout=600)
+            sfails, nsite = site_oracle(souts, stats) if rcs == 0 else ([], 0)
+            cov["call_site_runs"] = nsite
+            if rcs != 0 or nsite == 0:
+                v.violation({"kind": "harness", "correspondence": "call-site driver", "error": souts[-600:]}, has_input=False)
+            shown_cls = set()
+            for name, r, detail, cls in sfails:
+                if cls in shown_cls:
+                    continue
+                shown_cls.add(cls)
+                v.violation({"kind": "property-oracle", "oracle": name, "theorem": "C20_worker_pattern / C20_merge_exact at the consumer",
+                             "what": detail, "finding_class": cls, "site_case": r, "case": [json.dumps(r)]})
+            site_failures = len(sfails)
     if proof_broken:
         v.violation({"kind": "proof", "theorem_or_file": gate["problems"], "what": "Coq obligations no longer check"}, has_input=False)
     by_class = {}
@@ -459,7 +514,7 @@ def main(tier, replay):
                rule="random op sequences per generator class (single, tree depth<=3, directed11 = fork/sleep-in-fork/merge/exhaust-on-parent, excluded, cancelkill, maxsleep, custom jitters/duplicate names) over 17 kinds, budgets, weights, per-call maxima, excluded limits; distinct = distinct (op, observed sleep, result, resulting state) lines with a result",
                samples=samples, traces_validated_against_impl=mstats.get("seqs", 0), input_distribution=by_class,
                states_compared=mstats.get("states", 0), oracle_evaluations=stats,
-               model_mismatches=len(mism), oracle_failures=len(ofails) + len(pfails))
+               model_mismatches=len(mism), oracle_failures=len(ofails) + len(pfails) + site_failures)
     rc = v.finish()
     vlib.write_evidence(PID, cov, t0, violations=len(v.violations), level="proof",
                         assumptions=["kinds are well formed (0 <= cap, caps bounded by C), BackOffWeight <> 0",
